@@ -28,7 +28,8 @@ def check(run: Run, prog: Program, model: Model, tier: str) -> None:
         "classes may be in a subclass relation (symmetry of the class test), optional's __eq__ and __hash__ must use "
         "the same field. Kind-confusion: from the declaration code it is derived which prop values can hold a non-"
         "schema marker at a position where the other side holds a schema; such a pair sends the generic != into "
-        "eq()'s validate fallback and is reported with a counterexample when some schema accepts the marker.")
+        "eq()'s validate fallback and is reported with a counterexample when some schema accepts the marker."
+        " The fixed-value row of the validator must be the plain `!=` comparison, so that schemas equal under Props.__eq__ give identical verdicts.")
     run.rule_text = ("one obligation per compared key / structural clause / marker pair; non-trivial = derived on interpreter paths")
     pb = model.props_base
     eqm = pb.methods.get("__eq__")
